@@ -19,6 +19,9 @@ for pid in ids:
 led = json.load(open("/verif/ledger.json"))
 for pid in ids:
     if not led.get(pid):
-        print("no ledger for", pid); bad += 1
+        print("no ledger for", pid); bad += 1; continue
+    d = json.load(open(f"/verif/evidence/{pid}.json"))
+    if len(led[pid]) != d["coverage"]["discharged"]:
+        print("ledger/evidence mismatch", pid, len(led[pid]), d["coverage"]["discharged"]); bad += 1
 print("ok" if not bad else f"{bad} problem(s)")
 sys.exit(1 if bad else 0)
